@@ -251,7 +251,7 @@ Definition pymax (a b : Q) : Q := if Qltb a b then b else a.
 Definition pydiv (a b : Q) : outcome Q :=
   if Qeq_bool b 0 then Raise ZeroDivisionError else Val (a / b).
 
-Record sensor := { voltage_in : Q;           (* constructor argument *)
+Record sensor := { voltage_in : Q;           (* self.voltage_in: constructor argument, assignable later *)
                    vn : option Q }.          (* self.Vn, absent until calibrate() *)
 
 Definition new_sensor (vcc : Q) : sensor := {| voltage_in := vcc; vn := None |}.
@@ -294,15 +294,28 @@ Definition calibrate (K : sconsts) (s : sensor) (volts p : Q) : outcome sensor :
    the state before it, and every read looks Vn / voltage_in up afresh
    (`getattr(self, "Vn", self.voltage_in)` is evaluated on each call).
    `calibrate` assigns self.Vn as its last action: if the division raises,
-   nothing has been assigned. *)
+   nothing has been assigned.
+
+   `voltage_in` is a plain public instance attribute (the constructor
+   argument "supply voltage to sensor"): user code may assign it at any time
+   (`sensor.voltage_in = <measured 5 V rail>`, or a sensor built with a
+   placeholder and told its supply later).  The assignment replaces
+   voltage_in, touches nothing else (Vn stays as it is), returns nothing and
+   cannot raise. *)
 
 Inductive sop :=
 | OpRead (volts : Q)               (* s.pressure      while the input reads [volts] *)
-| OpCalibrate (volts p : Q).       (* s.calibrate(p)  while the input reads [volts] *)
+| OpCalibrate (volts p : Q)        (* s.calibrate(p)  while the input reads [volts] *)
+| OpSetSupply (vcc : Q).           (* s.voltage_in = vcc *)
 
 Inductive sobs :=
 | ObsRead (r : outcome Q)          (* what the getter returned / raised *)
-| ObsCalibrate (r : outcome unit). (* calibrate returned None / raised *)
+| ObsCalibrate (r : outcome unit)  (* calibrate returned None / raised *)
+| ObsSet.                          (* the attribute assignment was carried out *)
+
+(* s.voltage_in = vcc *)
+Definition set_supply (s : sensor) (vcc : Q) : sensor :=
+  {| voltage_in := vcc; vn := vn s |}.
 
 Definition step_state (K : sconsts) (s : sensor) (o : sop) : sensor :=
   match o with
@@ -312,6 +325,7 @@ Definition step_state (K : sconsts) (s : sensor) (o : sop) : sensor :=
       | Val s' => s'
       | _ => s
       end
+  | OpSetSupply vcc => set_supply s vcc
   end.
 
 Definition step_obs (K : sconsts) (s : sensor) (o : sop) : sobs :=
@@ -323,6 +337,7 @@ Definition step_obs (K : sconsts) (s : sensor) (o : sop) : sobs :=
                     | Raise e => Raise e
                     | Loops => Loops
                     end)
+  | OpSetSupply _ => ObsSet
   end.
 
 (* the object after the calls [ops] *)
